@@ -13,7 +13,66 @@ def sh(cmd, cwd=None, timeout=3600):
     return p.returncode, "\n".join(l for l in (p.stdout + p.stderr).split("\n") if "conda.cli" not in l)
 
 
+def worker(i, names, out_p):
+    """one parallel worker: private copy of /verif (with its build output) and a private worktree of /repo, so that regenerated model
+    files, the driver and numba caches of different seeded changes never meet"""
+    vw, rw = f"/tmp/verif_w{i}", f"/tmp/repo_w{i}"
+    sh(f"rm -rf {vw}; git -C /repo worktree remove --force {rw}; rm -rf {rw}")
+    sh(f"rsync -a --exclude replays --exclude .git {VERIF}/ {vw}/")
+    rc, out = sh(f"git -C /repo worktree add --detach {rw} HEAD")
+    res = {}
+    for name in names:
+        d = os.path.join(VERIF, "seeded", name)
+        meta = json.load(open(os.path.join(d, "meta.json"))) if os.path.exists(os.path.join(d, "meta.json")) else {}
+        checks = list(meta.get("checks", {}).keys()) or [name.split("-")[0]]
+        rc, out = sh(f"git -C {rw} apply {d}/patch.diff")
+        if rc != 0:
+            res[name] = {"error": "patch does not apply: " + out[-200:]}; continue
+        r_ = {}
+        try:
+            for c in checks:
+                t0 = time.time()
+                rcq, outq = sh(f"EBISIM_REPO={rw} {PY} tools/check.py {c} --tier quick", cwd=vw)
+                lines = [l for l in outq.split("\n") if l.startswith("VIOLATION") or l.startswith("  what") or l.startswith("  broken")]
+                r_[c] = {"quick_exit": rcq, "s": round(time.time() - t0, 1), "with_input": any(l.startswith("VIOLATION") and "no-failing-input-found" not in l for l in lines),
+                         "lines": [l[:300] for l in lines[:4]]}
+                print(name, c, "->", rcq, "input" if r_[c]["with_input"] else "no-input", flush=True)
+        finally:
+            sh(f"git -C {rw} checkout -- .")
+        res[name] = {"first_evaluation": {c: {k: v for k, v in r.items() if k.endswith("_exit")} for c, r in meta.get("checks", {}).items()}, "now": r_}
+        json.dump(res, open(out_p, "w"), indent=1)
+    sh(f"git -C /repo worktree remove --force {rw}; rm -rf {vw} {rw}")
+
+
+def write_md(status):
+    rows = ["| seeded change | first evaluation (quick / thorough) | current quick tier |", "|---|---|---|"]
+    for name, s in sorted(status.items()):
+        if "error" in s: rows.append(f"| {name} | - | {s['error']} |"); continue
+        fe = "; ".join(f"{c}: {r.get('quick_exit')}/{r.get('thorough_exit', '-')}" for c, r in s["first_evaluation"].items())
+        now = "; ".join(f"{c}: exit {r['quick_exit']} ({'failing input' if r['with_input'] else ('no-failing-input-found' if r['quick_exit'] == 1 else 'missed')})" for c, r in s["now"].items())
+        rows.append(f"| {name} | {fe} | {now} |")
+    open(os.path.join(VERIF, "seeded", "STATUS.md"), "w").write("\n".join(rows) + "\n")
+
+
 def main():
+    if "--workers" in sys.argv:
+        # parallel mode: seed_rerun.py --workers N [name-prefix ...]   (the checks run from private copies; /repo itself is never patched)
+        k = sys.argv.index("--workers"); n = int(sys.argv[k + 1]); pref = [a for j, a in enumerate(sys.argv[1:], 1) if j not in (k, k + 1)]
+        names = [os.path.basename(d) for d in sorted(glob.glob(os.path.join(VERIF, "seeded", "C*")))]
+        names = [x for x in names if not pref or any(x.startswith(p) for p in pref)]
+        import multiprocessing as mp
+        procs = []
+        for i in range(n):
+            pr = mp.Process(target=worker, args=(i, names[i::n], f"/tmp/seed_rerun_{i}.json")); pr.start(); procs.append(pr)
+        for pr in procs: pr.join()
+        status_p = os.path.join(VERIF, "seeded", "STATUS.json")
+        status = json.load(open(status_p)) if os.path.exists(status_p) else {}
+        for i in range(n):
+            if os.path.exists(f"/tmp/seed_rerun_{i}.json"):
+                status.update(json.load(open(f"/tmp/seed_rerun_{i}.json"))); os.remove(f"/tmp/seed_rerun_{i}.json")
+        json.dump(status, open(status_p, "w"), indent=1)
+        write_md(status)
+        return
     pref = sys.argv[1:]
     rc, out = sh("git -C /repo status --porcelain")
     assert out.strip() == "", "/repo is not clean: " + out
